@@ -55,13 +55,18 @@ NoFile == [kind |-> "none"]
 
 CfgRelax == Get(cfg, "relax", 0) = 1
 
+\* C15: an armed fault schedule matters only once it has changed the answer of some I/O callback: the driver counts those in
+\* "fe" (traces recorded without the counter are treated as fired).  Until then every call is judged by the strict clauses.
+Fired(e) == Get(e, "fe", 1) > 0
+FaultOn(e) == fault /\ Fired(e)
+
 ModeOf(m) == IF m = "r" THEN SFM_READ ELSE IF m = "w" THEN SFM_WRITE ELSE SFM_RDWR
 
 \* observation of a data-path call, from the event
 ObsOf(e) == [ret |-> Get(e, "ret", 0), out |-> Get(e, "out", <<>>), outn |-> Get(e, "outn", Len(Get(e, "out", <<>>))), tz |-> Get(e, "tz", 1), guard |-> Get(e, "guard", 1),
              er |-> e.st.er, rp |-> e.st.rp, wp |-> e.st.wp, fr |-> e.st.fr, nd |-> e.st.nd, nf |-> e.st.nf]
 
-CallOf(e) == CASE e.op = "read"  -> [op |-> "read", T |-> e.T, unit |-> e.unit, n |-> e.n]
+CallOf(e) == CASE e.op = "read"  -> [op |-> "read", T |-> e.T, unit |-> e.unit, n |-> e.n, dy |-> Get(cfg, "fmode", 0) = 1]
                [] e.op = "write" -> [op |-> "write", T |-> e.T, unit |-> e.unit, n |-> e.n, v |-> e.v]
                [] e.op = "seek"  -> [op |-> "seek", off |-> e.off, wh |-> e.wh]
                [] e.op = "trunc" -> [op |-> "trunc", n |-> e.n]
@@ -320,14 +325,17 @@ OpenClass(e) ==
     LET f == FileOf(e) IN
     IF e.mode = "w" \/ f.kind \in {"none", "empty"} THEN "new"
     \* (RDWR on a block encoding is accepted by the library but no I/O works on such a handle: outside C08, only C03-level sanity is required)
-    ELSE IF f.kind \in {"written", "image"} /\ ~fault /\ ~CfgRelax /\ (f.kind = "image" => f.valid)
+    ELSE IF f.kind \in {"written", "image"} /\ ~FaultOn(e) /\ ~CfgRelax /\ (f.kind = "image" => f.valid)
             /\ ~(e.mode = "rw" /\ ~IsGranular(f.fmt)) THEN "written"
     ELSE "hostile"
 
 OpenOK(e) ==
     CASE e.mode = "rw" /\ e.ok = 0 -> OpenFailedOK(e)       \* the library decides which encodings can be opened RDWR (C08 quantifies over those)
-      [] e.route \in {"emb44", "emb4096", "pipe"} /\ e.ok = 0 -> OpenFailedOK(e)   \* C14: embedding / pipes only for the containers that support them
-      [] OpenClass(e) = "new" -> IF fault \/ CfgRelax THEN (e.ok = 0 => OpenFailedOK(e)) ELSE OpenNewOK(e)
+      \* C14: embedding / pipes only for the containers that support them (docs: WAV, AIFF, AU; WAVEX shares the WAV parser):
+      \* for those a valid file embedded at an offset must open
+      [] e.route \in {"emb44", "emb4096", "embz44", "embz4096", "pipe"} /\ e.ok = 0
+         /\ ~(e.route # "pipe" /\ e.mode = "r" /\ OpenClass(e) = "written" /\ Major(FileOf(e).fmt) \in {M_WAV, M_WAVEX, M_AIFF, M_AU}) -> OpenFailedOK(e)
+      [] OpenClass(e) = "new" -> IF FaultOn(e) \/ CfgRelax THEN (e.ok = 0 => OpenFailedOK(e)) ELSE OpenNewOK(e)
       [] OpenClass(e) = "written" -> OpenWrittenOK(e, FileOf(e))
       [] OTHER -> OpenHostileOK(e)
 
@@ -335,7 +343,7 @@ OpenOK(e) ==
 OpenEffect(e) ==
     LET f == FileOf(e) cls == OpenClass(e) h == e.h
         B == BlockFrames(e.fmt, e.ch, e.rate)
-        relax == fault \/ CfgRelax \/ cls = "hostile" IN
+        relax == FaultOn(e) \/ CfgRelax \/ cls = "hostile" IN
     IF e.ok = 0 THEN UNCHANGED <<hs, cont, ncid>>
     ELSE IF cls = "written" /\ cont[f.cid].gen = f.gen THEN
          \* share the content of the writer; frames beyond what was written (block padding) are unknown
@@ -412,6 +420,12 @@ ErrQOK(e) == /\ e.mlen > 0 /\ e.nlen > 0 /\ e.sguard = 1 /\ e.snul = 1
 EndOK(e) == e.led.a = 0 /\ e.led.fd = 0 /\ e.led.tmp = 0        \* C16
 
 \* one event explained by the specification
+\* A single-shot seek fault that hits an explicit sf_seek, which then fails cleanly (SeekFailObs: -1, error, nothing moved), is
+\* over: the handle is where it was and "data the I/O layer accepted before the failure is not corrupted by later calls" is
+\* checked by going back to the strict clauses for the rest of the scenario (sample granular encodings).
+Absorbed(e) == /\ e.op = "seek" /\ fault /\ ~CfgRelax /\ e.h >= 0 /\ hs[e.h].life = "open" /\ ~hs[e.h].relax /\ hs[e.h].gran
+               /\ Get(e, "fk", 0) = 3 /\ Get(e, "fe", 0) = 1 /\ Get(e, "fa", 1) = 0 /\ e.ret = -1
+
 Obs ==
     LET e == Ev IN
     CASE e.op = "open" ->
@@ -419,7 +433,7 @@ Obs ==
             /\ OpenOK(e) /\ OpenEffect(e) /\ UNCHANGED <<files, closed, nclose, canon, aux>>
       [] e.op = "close" ->
             /\ hs[e.h].life = "open"
-            /\ LET s == [hs[e.h] EXCEPT !.relax = @ \/ fault] IN CloseOK(s, e) /\ CloseEffect(s, e) /\ UNCHANGED <<cont, ncid, aux>>
+            /\ LET s == [hs[e.h] EXCEPT !.relax = @ \/ FaultOn(e)] IN CloseOK(s, e) /\ CloseEffect(s, e) /\ UNCHANGED <<cont, ncid, aux>>
       [] e.op = "file" -> FileEffect(e) /\ UNCHANGED <<hs, cont, ncid, closed, nclose, canon, aux>>
       [] e.op = "end" -> EndOK(e) /\ UNCHANGED <<hs, cont, files, ncid, closed, nclose, canon, aux>>
       [] e.op \in {"crash", "timeout"} -> FALSE                 \* a call that never returned (C03, C15)
@@ -429,12 +443,12 @@ Obs ==
       [] e.op \in {"fault", "fmtcheck", "fmtenum", "chk"} -> UNCHANGED <<hs, cont, files, ncid, closed, nclose, canon, aux>>
       [] OTHER ->
             IF e.h < 0 \/ ~HasState(e) THEN (e.op = "errq" => ErrQOK(e)) /\ UNCHANGED <<hs, cont, files, ncid, closed, nclose, canon, aux>>
-            ELSE LET s == IF hs[e.h].life = "open" THEN [hs[e.h] EXCEPT !.relax = @ \/ fault] ELSE hs[e.h] IN
+            ELSE LET s == IF hs[e.h].life = "open" THEN [hs[e.h] EXCEPT !.relax = @ \/ FaultOn(e)] ELSE hs[e.h] IN
                  /\ s.life = "open"
                  /\ (e.op = "errq" => ErrQOK(e))
                  /\ CallOK(s, cont[s.cid], e)
                  /\ LET p == CallPost(s, cont[s.cid], e) IN
-                    /\ hs' = [hs EXCEPT ![e.h] = p.s]
+                    /\ hs' = [hs EXCEPT ![e.h] = IF Absorbed(e) THEN [p.s EXCEPT !.relax = FALSE] ELSE p.s]
                     /\ cont' = [cont EXCEPT ![s.cid] = p.cv]
                  /\ UNCHANGED <<files, ncid, closed, nclose, canon, aux>>
 
@@ -466,7 +480,7 @@ TNext ==
        ELSE IF skip THEN UNCHANGED <<skip, bad, hs, cont, files, ncid, cfg, fault, closed, canon, nclose, aux, nscn, nev>>
        ELSE IF ENABLED Obs THEN
             /\ Obs /\ nev' = nev + 1
-            /\ fault' = (fault \/ (Ev.op = "fault" /\ Ev.at > 0))
+            /\ fault' = IF Absorbed(Ev) THEN FALSE ELSE (fault \/ (Ev.op = "fault" /\ Ev.at > 0))
             /\ UNCHANGED <<skip, bad, cfg, nscn>>
        ELSE /\ skip' = TRUE
             /\ bad' = Append(bad, [s |-> Ev.s, i |-> Ev.i, op |-> Ev.op, why |-> Why(Ev), idx |-> cfg.idx])
